@@ -48,12 +48,20 @@ theorem discipline_holding_descriptor :
       opensDescriptor.contains (Gen.C20.funcNames.getD i "") || checkFrom Gen.C20.table fuel ((0, 0) :: entryOf i) i) = true := by
   decide +kernel
 
+/-- guarded-field rule: from every exported function / method (unexported helpers are reached from them with their
+callers' locks), every access to `Directory.entriesCache`, `Directory.unixfsDir`, `File.node`, `fileDescriptor.state`,
+`fileDescriptor.mod` happens with the guarding lock of the same object held (write mode for stores), except the
+accesses listed in `Gen.C20.allowUnguarded` (existing unguarded reads, see docs/notes/C20.md) -/
+theorem guarded_access :
+    Gen.C20.exportedFuncs.all (fun i => checkFrom Gen.C20.tableAcc fuel (entryOf i) i) = true := by
+  decide +kernel
+
 /-- the facts the extractor produced for the unrepaired `File.Mode` (re-entrant RLock through GetNode):
 function 0 = File.Mode, function 1 = File.GetNode; lock class 0 = File.nodeLock -/
 def buggyTable : Tbl :=
   ⟨[[.acq 0 (some []) false, .deferRel 0 (some []) false, .call 1 (some []), .retOk],
     [.acq 0 (some []) false, .deferRel 0 (some []) false, .retOk]],
-   [.file, .file], [some (3, .file)], [], [], []⟩
+   [.file, .file], [some (3, .file)], [], [], [], false, []⟩
 
 /-! ### invariant of the step model (every interleaving of `Step`) -/
 
